@@ -22,6 +22,7 @@ pub(super) const LOGN: usize = 40;
 pub(super) static mut DE_LOG: [(u8, u64); LOGN] = [(0, 0); LOGN];
 pub(super) static mut DE_POS: usize = 0;
 pub(super) static mut SER_POS: usize = 0;
+pub(super) fn reset_mocks() { unsafe { FIRST = 0; DE_POS = 0; SER_POS = 0; ERR_ID = 0; FIRST_ID = 0; SCRIPT_POS = 0; } }
 pub(super) fn de_log(k: u8, v: u64) { unsafe { if DE_POS < LOGN { DE_LOG[DE_POS] = (k, v); } DE_POS += 1; } }
 pub(super) fn ser_log(k: u8, v: u64) {
 	unsafe {
